@@ -174,3 +174,9 @@ pub fn debug() -> bool {
     static D: OnceLock<bool> = OnceLock::new();
     *D.get_or_init(|| std::env::var("YMON_DEBUG").is_ok())
 }
+
+/// Violations are reported up to 25 per kind (and 3000 in total) per worker: a frequent kind - in particular a known
+/// finding - must not use up the room of a rare one.
+pub fn room(violations: &[serde_json::Value], kind: &str) -> bool {
+    violations.len() < 3000 && violations.iter().filter(|v| v["kind"].as_str() == Some(kind)).count() < 25
+}
